@@ -427,7 +427,7 @@ def full_stack_suite(ctx, count, batch=False):
 
 # ---- the whole of `_parsing.run` inside the model: Lean rule functions + lazy cache + search -----
 
-def lazy_case(rng, lang, m, with_seen, with_beta, dup=False):
+def lazy_case(rng, lang, m, with_seen, with_beta, dup=False, chunking=None):
     """one call of the real depccg.parsing.run (real rule functions of `lang`, m sentences sharing
     category table and cache) and the protocol line that makes the Lean model do the same thing
     *by itself*: its own En / Ja rule functions, its own callbacks, search and finaliser"""
@@ -462,7 +462,8 @@ def lazy_case(rng, lang, m, with_seen, with_beta, dup=False):
             res = native.setup()['parsing'].run([t for _, t in sents], [G.scoring(p) for p, _ in sents], list(cats), list(root_cats),
                                                 bfun, ufun, unary_penalty=base.penalty / S.SCALE, beta=base.beta, use_beta=base.use_beta,
                                                 pruning_size=base.pruning, nbest=base.nbest, max_step=base.max_step, max_length=max_length,
-                                                processes=1, max_chunk_size=1000)
+                                                processes=(chunking[1] if chunking else 1),
+                                                max_chunk_size=(chunking[0] if chunking else 1000))
         except RuntimeError as e:
             res = e
         real_pops = [(1 if f else 0, S.to_int(i), S.to_int(o), s, l, c, h, rr) for f, i, o, s, l, c, h, rr in pops]
@@ -470,7 +471,10 @@ def lazy_case(rng, lang, m, with_seen, with_beta, dup=False):
         pyxrt.trace_pops(False)
     parts = ['lazyrun', lang, ('ship_' + lang) if with_seen else '-', 'ship_' + lang,
              str(len(cats))] + [enc_cat(c) for c in cats] + [str(len(root_cats))] + [enc_cat(c) for c in root_cats]
-    parts += [str(base.penalty), str(base.pruning), str(base.nbest), str(base.max_step), str(max_length), str(len(sents))]
+    parts += [str(base.penalty), str(base.pruning), str(base.nbest), str(base.max_step), str(max_length)]
+    if chunking:
+        parts += ['chunks', str(chunking[0]), str(chunking[1])]
+    parts.append(str(len(sents)))
     for p, toks in sents:
         parts.append(str(p.n))
         parts += [T.enc_tok(t) for t in toks]
@@ -486,7 +490,7 @@ def lazy_case(rng, lang, m, with_seen, with_beta, dup=False):
             parts.append('0')
     line = ' '.join(' '.join(parts).split())
     desc = dict(lang=lang, seen=with_seen, sentences=[p.to_json() for p, _ in sents], categories=[str(c) for c in cats],
-                roots=[str(c) for c in root_cats], max_length=max_length, duplicate_category=dup)
+                roots=[str(c) for c in root_cats], max_length=max_length, duplicate_category=dup, chunking=chunking)
     return desc, real_pops, res, line, (sents, cats, root_cats, bfun, ufun, max_length)
 
 
@@ -548,10 +552,12 @@ def lazy_oracle(sents, cats, root_cats, bfun, ufun, max_length, res):
 
 
 def parse_lazy_output(out):
-    """-> (ncats, [ (kind, pops, [(score, tree_enc)]) ])"""
+    """-> (ncats or None, [ (kind, pops, [(score, tree_enc)]) ])"""
     segs = out.split(' || ')
     head = segs[0].split(' ')
     assert head[0] == 'ok', out[:200]
+    if head[1] == '-':
+        head[1] = '-1'
     sents = []
     for seg in segs[1:]:
         items = seg.split(' ; ')
@@ -589,8 +595,11 @@ def lazy_suite(ctx, count, batch=False):
     while len(cases) < count and tries < 3 * count:
         tries += 1
         try:
-            c = lazy_case(rng, 'ja' if tries % 3 == 0 else 'en', rng.randint(2, 4) if batch else 1,
-                          with_seen=(tries % 4 == 1), with_beta=(tries % 5 == 2), dup=(tries % 8 == 5))
+            m = rng.randint(2, 4) if batch else 1
+            # every sixth batch goes through the chunking of depccg.parsing.run and a real worker pool
+            chunking = (rng.randint(1, m - 1), rng.randint(1, 3)) if batch and tries % 6 == 4 else None
+            c = lazy_case(rng, 'ja' if tries % 3 == 0 else 'en', m,
+                          with_seen=(tries % 4 == 1), with_beta=(tries % 5 == 2), dup=(tries % 8 == 5), chunking=chunking)
         except Exception as e:
             ctx.fail(f'depccg.parsing.run raised {type(e).__name__}: {e}', {'suite': 'lazy'},
                      fingerprint=['lazy-raise', type(e).__name__])
@@ -600,6 +609,7 @@ def lazy_suite(ctx, count, batch=False):
     outs = run_lines(setup + [c[3] for c in cases])[len(setup):]
     parsed = 0
     rejected = 0
+    chunked = 0
     for (desc, real_pops, res, line, orc), out in zip(cases, outs):
         ctx.evaluations += 1
         ctx.traces += 1
@@ -621,7 +631,9 @@ def lazy_suite(ctx, count, batch=False):
             continue
         _, msents = parse_lazy_output(out)
         mpops = [q for _, pops, _ in msents for q in pops]
-        if mpops != list(real_pops):
+        if desc['chunking']:
+            chunked += 1          # the searches ran in worker processes: no pop trace, results only
+        elif mpops != list(real_pops):
             k = 0
             while k < min(len(mpops), len(real_pops)) and mpops[k] == real_pops[k]:
                 k += 1
@@ -657,3 +669,4 @@ def lazy_suite(ctx, count, batch=False):
     ctx.extra['lazy_cases' + ('_batch' if batch else '')] = len(cases)
     ctx.extra['lazy_parsed_sentences' + ('_batch' if batch else '')] = parsed
     ctx.extra['lazy_rejected_duplicate_lists' + ('_batch' if batch else '')] = rejected
+    ctx.extra['lazy_chunked_calls' + ('_batch' if batch else '')] = chunked
